@@ -306,6 +306,17 @@ func plantRPCCase(e *Editor, ws *Workspace) (*Plant, bool) {
 	}
 	x := sites[e.pick("site", len(sites))]
 	old := x.m.Name
+	if e.pick("samewords", 2) == 0 {
+		// the same words in another case: the request/response names derived from the PascalCase form still fit
+		if e.pick("snake", 2) == 0 {
+			x.m.Name = strings.ToLower(UpperSnake(old))
+		} else {
+			x.m.Name = strings.ToLower(old[:1]) + old[1:]
+		}
+		if x.m.Name != old {
+			return &Plant{Op: "rpc-case-same-words", Rule: "RPC_PASCAL_CASE", Desc: fmt.Sprintf("rename rpc %s -> %s", old, x.m.Name), Sites: []string{x.m.ID}}, true
+		}
+	}
 	x.m.Name = "bad_" + e.fresh()
 	return &Plant{Op: "rpc-case", Rule: "RPC_PASCAL_CASE", Desc: fmt.Sprintf("rename rpc %s -> %s", old, x.m.Name), Sites: []string{x.m.ID},
 		Also: []string{"RPC_REQUEST_STANDARD_NAME", "RPC_RESPONSE_STANDARD_NAME"}}, true
@@ -513,7 +524,7 @@ func plantRPCSharedRequestAcrossServices(e *Editor, ws *Workspace) (*Plant, bool
 	p.b.m.Name = p.a.m.Name
 	p.b.m.Input = p.a.m.Input
 	return &Plant{Op: "rpc-shared-request-across-services", Rule: "RPC_REQUEST_RESPONSE_UNIQUE",
-		Desc: fmt.Sprintf("%s.%s and %s.%s (same rpc name) both take %s", p.a.s.Name, p.a.m.Name, p.b.s.Name, p.b.m.Name, p.a.m.Input),
+		Desc:  fmt.Sprintf("%s.%s and %s.%s (same rpc name) both take %s", p.a.s.Name, p.a.m.Name, p.b.s.Name, p.b.m.Name, p.a.m.Input),
 		Sites: []string{p.a.m.ID, p.b.m.ID}, Also: []string{"RPC_RESPONSE_STANDARD_NAME"}}, true
 }
 
@@ -1107,46 +1118,46 @@ func (e *Editor) ApplyPlant(ws *Workspace) *Plant {
 var lintCats = map[string][3]string{
 	"COMMENT_ENUM": {"C", "C", "C"}, "COMMENT_ENUM_VALUE": {"C", "C", "C"}, "COMMENT_FIELD": {"C", "C", "C"}, "COMMENT_MESSAGE": {"C", "C", "C"},
 	"COMMENT_ONEOF": {"C", "C", "C"}, "COMMENT_RPC": {"C", "C", "C"}, "COMMENT_SERVICE": {"C", "C", "C"},
-	"DIRECTORY_SAME_PACKAGE":           {"MBS", "MBS", "MBS"},
-	"ENUM_FIRST_VALUE_ZERO":            {"", "BS", "BS"}, // v1beta1: only in the v1beta1-only category OTHER
-	"ENUM_NO_ALLOW_ALIAS":              {"MBS", "BS", "BS"},
-	"ENUM_PASCAL_CASE":                 {"BS", "BS", "BS"},
-	"ENUM_VALUE_PREFIX":                {"S", "S", "S"},
-	"ENUM_VALUE_UPPER_SNAKE_CASE":      {"BS", "BS", "BS"},
-	"ENUM_ZERO_VALUE_SUFFIX":           {"S", "S", "S"},
-	"FIELD_LOWER_SNAKE_CASE":           {"BS", "BS", "BS"},
-	"FIELD_NO_DESCRIPTOR":              {"MBS", "-", "-"},
-	"FIELD_NOT_REQUIRED":               {"-", "-", "BS"},
-	"FILE_LOWER_SNAKE_CASE":            {"S", "S", "S"},
-	"IMPORT_NO_PUBLIC":                 {"MBS", "BS", "BS"},
-	"IMPORT_NO_WEAK":                   {"", "", ""},
-	"IMPORT_USED":                      {"-", "BS", "BS"},
-	"MESSAGE_PASCAL_CASE":              {"BS", "BS", "BS"},
-	"ONEOF_LOWER_SNAKE_CASE":           {"BS", "BS", "BS"},
-	"PACKAGE_DEFINED":                  {"MBS", "MBS", "MBS"},
-	"PACKAGE_DIRECTORY_MATCH":          {"MBS", "MBS", "MBS"},
-	"PACKAGE_LOWER_SNAKE_CASE":         {"BS", "BS", "BS"},
-	"PACKAGE_NO_IMPORT_CYCLE":          {"-", "", "MBS"},
-	"PACKAGE_SAME_CSHARP_NAMESPACE":    {"MBS", "BS", "BS"},
-	"PACKAGE_SAME_DIRECTORY":           {"MBS", "MBS", "MBS"},
-	"PACKAGE_SAME_GO_PACKAGE":          {"MBS", "BS", "BS"},
-	"PACKAGE_SAME_JAVA_MULTIPLE_FILES": {"MBS", "BS", "BS"},
-	"PACKAGE_SAME_JAVA_PACKAGE":        {"MBS", "BS", "BS"},
-	"PACKAGE_SAME_PHP_NAMESPACE":       {"MBS", "BS", "BS"},
-	"PACKAGE_SAME_RUBY_PACKAGE":        {"MBS", "BS", "BS"},
-	"PACKAGE_SAME_SWIFT_PREFIX":        {"MBS", "BS", "BS"},
-	"PACKAGE_VERSION_SUFFIX":           {"S", "S", "S"},
-	"PROTOVALIDATE":                    {"-", "S", "S"},
-	"RPC_NO_CLIENT_STREAMING":          {"U", "U", "U"},
-	"RPC_NO_SERVER_STREAMING":          {"U", "U", "U"},
-	"RPC_PASCAL_CASE":                  {"BS", "BS", "BS"},
-	"RPC_REQUEST_RESPONSE_UNIQUE":      {"S", "S", "S"},
-	"RPC_REQUEST_STANDARD_NAME":        {"S", "S", "S"},
-	"RPC_RESPONSE_STANDARD_NAME":       {"S", "S", "S"},
-	"SERVICE_PASCAL_CASE":              {"BS", "BS", "BS"},
-	"SERVICE_SUFFIX":                   {"S", "S", "S"},
+	"DIRECTORY_SAME_PACKAGE":            {"MBS", "MBS", "MBS"},
+	"ENUM_FIRST_VALUE_ZERO":             {"", "BS", "BS"}, // v1beta1: only in the v1beta1-only category OTHER
+	"ENUM_NO_ALLOW_ALIAS":               {"MBS", "BS", "BS"},
+	"ENUM_PASCAL_CASE":                  {"BS", "BS", "BS"},
+	"ENUM_VALUE_PREFIX":                 {"S", "S", "S"},
+	"ENUM_VALUE_UPPER_SNAKE_CASE":       {"BS", "BS", "BS"},
+	"ENUM_ZERO_VALUE_SUFFIX":            {"S", "S", "S"},
+	"FIELD_LOWER_SNAKE_CASE":            {"BS", "BS", "BS"},
+	"FIELD_NO_DESCRIPTOR":               {"MBS", "-", "-"},
+	"FIELD_NOT_REQUIRED":                {"-", "-", "BS"},
+	"FILE_LOWER_SNAKE_CASE":             {"S", "S", "S"},
+	"IMPORT_NO_PUBLIC":                  {"MBS", "BS", "BS"},
+	"IMPORT_NO_WEAK":                    {"", "", ""},
+	"IMPORT_USED":                       {"-", "BS", "BS"},
+	"MESSAGE_PASCAL_CASE":               {"BS", "BS", "BS"},
+	"ONEOF_LOWER_SNAKE_CASE":            {"BS", "BS", "BS"},
+	"PACKAGE_DEFINED":                   {"MBS", "MBS", "MBS"},
+	"PACKAGE_DIRECTORY_MATCH":           {"MBS", "MBS", "MBS"},
+	"PACKAGE_LOWER_SNAKE_CASE":          {"BS", "BS", "BS"},
+	"PACKAGE_NO_IMPORT_CYCLE":           {"-", "", "MBS"},
+	"PACKAGE_SAME_CSHARP_NAMESPACE":     {"MBS", "BS", "BS"},
+	"PACKAGE_SAME_DIRECTORY":            {"MBS", "MBS", "MBS"},
+	"PACKAGE_SAME_GO_PACKAGE":           {"MBS", "BS", "BS"},
+	"PACKAGE_SAME_JAVA_MULTIPLE_FILES":  {"MBS", "BS", "BS"},
+	"PACKAGE_SAME_JAVA_PACKAGE":         {"MBS", "BS", "BS"},
+	"PACKAGE_SAME_PHP_NAMESPACE":        {"MBS", "BS", "BS"},
+	"PACKAGE_SAME_RUBY_PACKAGE":         {"MBS", "BS", "BS"},
+	"PACKAGE_SAME_SWIFT_PREFIX":         {"MBS", "BS", "BS"},
+	"PACKAGE_VERSION_SUFFIX":            {"S", "S", "S"},
+	"PROTOVALIDATE":                     {"-", "S", "S"},
+	"RPC_NO_CLIENT_STREAMING":           {"U", "U", "U"},
+	"RPC_NO_SERVER_STREAMING":           {"U", "U", "U"},
+	"RPC_PASCAL_CASE":                   {"BS", "BS", "BS"},
+	"RPC_REQUEST_RESPONSE_UNIQUE":       {"S", "S", "S"},
+	"RPC_REQUEST_STANDARD_NAME":         {"S", "S", "S"},
+	"RPC_RESPONSE_STANDARD_NAME":        {"S", "S", "S"},
+	"SERVICE_PASCAL_CASE":               {"BS", "BS", "BS"},
+	"SERVICE_SUFFIX":                    {"S", "S", "S"},
 	"STABLE_PACKAGE_NO_IMPORT_UNSTABLE": {"-", "-", ""},
-	"SYNTAX_SPECIFIED":                 {"-", "BS", "BS"},
+	"SYNTAX_SPECIFIED":                  {"-", "BS", "BS"},
 }
 
 // LintCategories are the categories common to all config versions.
